@@ -151,7 +151,8 @@ type Summary struct {
 func Finish(prop, tier string, seed int, rs []*R, findings []Finding, verifDir string, start time.Time, extra map[string]any) int {
 	var obs []Ob
 	floors := map[string]Floor{}
-	var controls, assumptions, exceptions []string
+	var controls, exceptions []string
+	assumptions := []string{"the Go type checker and go/ssa, go/cfg, callgraph (golang.org/x/tools v0.29.0) represent the program faithfully", "the hand-confirmed tables in checker/props (exceptions, sinks, sources) are right for the pinned tree; floors re-validate them on every run"}
 	rules := map[string]string{}
 	funcs := map[string]bool{}
 	expl := ""
